@@ -546,6 +546,14 @@ class Interp:
         if isinstance(f, Ref):
             return self.external(f.path, args, kwargs)
         if callable(f) and not isinstance(f, (AxArr, Obj)):
+            # functions of the analysed code handed to a Python builtin (sorted(key=...), map, filter ...) are called back
+            def _wrap(x: Any) -> Any:
+                if isinstance(x, Func):
+                    return lambda *a_, **k_: self.call(x, list(a_), dict(k_), None)
+                return x
+
+            args = [_wrap(x) for x in args]
+            kwargs = {k_: _wrap(v_) for k_, v_ in kwargs.items()}
             try:
                 return f(*args, **kwargs)
             except (Raised, Undecided):
@@ -553,7 +561,7 @@ class Interp:
             except ValueError:
                 raise Raised('ValueError', node)
             except TypeError:
-                if not all(_concrete(a) for a in args):
+                if not all(_concrete(a) or callable(a) for a in list(args) + list(kwargs.values())):
                     return UNK
                 raise Raised('TypeError', node)
             except (IndexError, KeyError, StopIteration) as e:
@@ -819,6 +827,8 @@ class Interp:
             if name in ('append', 'extend', 'insert', 'pop', 'remove', 'sort', 'reverse', 'clear', 'update', 'setdefault', 'add', 'discard',
                         'index', 'count', 'items', 'keys', 'values', 'get', 'copy', 'most_common', 'union', 'intersection', 'difference', 'join',
                         'symmetric_difference', 'issubset', 'issuperset', 'isdisjoint') and hasattr(v, name):
+                return getattr(v, name)
+            if name in ('__getitem__', '__contains__', '__len__', '__iter__') and hasattr(v, name):
                 return getattr(v, name)
             if isinstance(v, str) and name in ('split', 'rsplit', 'replace', 'find', 'rfind', 'rindex', 'translate', 'startswith', 'endswith', 'strip', 'lstrip', 'rstrip', 'partition',
                                                'rpartition', 'isalpha', 'isdigit', 'lower', 'upper', 'removeprefix', 'removesuffix', 'format', 'splitlines', 'isidentifier', 'isascii'):
